@@ -531,4 +531,93 @@ func runRbcSys(r *prng.R, s *out.Sink, tier string) {
 	}
 	s.Extra["runs"] = runs
 	s.Extra["broadcast_hand_overs"] = handovers
+	rbcSearch(r, s, tier)
+}
+
+// rbcSearch is the cheap adversary search behind C02: sessions of three or four parties with one
+// corrupted sender that draws its moves from a small menu (payload A or B to a chosen victim, its own
+// acknowledgement of A or B to a chosen victim), interleaved at random with the delivery of the honest
+// acknowledgements (per-link FIFO or arbitrary order). Only the direct monitor runs here (no model
+// comparison): hundreds of thousands of tiny executions on real receivers.
+func rbcSearch(r *prng.R, s *out.Sink, tier string) {
+	trials := 60000
+	if tier == "thorough" {
+		trials = 1500000
+	}
+	A := &hmsg{payload: []byte{1, 1, 0xA}, digest: []byte("digest-of-A-0123456789abcdef0123"), round: 1, broadcast: true}
+	B := &hmsg{payload: []byte{1, 1, 0xB}, digest: []byte("digest-of-B-0123456789abcdef0123"), round: 1, broadcast: true}
+	quiet := &out.Sink{Hist: map[string]int{}, Distinct: map[string]struct{}{}, Extra: map[string]interface{}{}}
+	_ = quiet
+	found := 0
+	for k := 0; k < trials && found < 3; k++ {
+		n := 3 + k%2
+		ids := []uint16{0, 1, 2, 3}[:n]
+		rv := map[uint16]*recv{}
+		for _, id := range ids[1:] {
+			rv[id] = newRecv(id, n)
+		}
+		fifo := k%3 != 0
+		var net []flight
+		var hist []string
+		handed := map[uint16]string{}
+		moves := 2 + r.Intn(5)
+		for step := 0; step < 40 && (moves > 0 || len(net) > 0); step++ {
+			if moves > 0 && (len(net) == 0 || r.Intn(2) == 0) {
+				moves--
+				victim := ids[1+r.Intn(n-1)]
+				pl := A
+				if r.Bool() {
+					pl = B
+				}
+				var m *hmsg
+				if r.Intn(3) == 0 {
+					m = &hmsg{isAck: true, digest: pl.digest, ackSender: 0, round: 1}
+				} else {
+					m = pl
+				}
+				net = append(net, flight{to: victim, from: 0, m: m})
+				continue
+			}
+			i := r.Intn(len(net))
+			if fifo {
+				// the oldest message of a randomly chosen link
+				link := [2]uint16{net[i].from, net[i].to}
+				for j := range net {
+					if [2]uint16{net[j].from, net[j].to} == link {
+						i = j
+						break
+					}
+				}
+			}
+			f := net[i]
+			net = append(net[:i:i], net[i+1:]...)
+			ans := rv[f.to].step(f.m, f.from)
+			hist = append(hist, opLine(int(f.to), f.m, f.from))
+			for _, ev := range strings.Split(ans, " ; ") {
+				f2 := strings.Fields(ev)
+				switch {
+				case len(f2) == 4 && f2[0] == "ack":
+					var d []byte
+					fmt.Sscanf(f2[1], "%x", &d)
+					for _, q := range ids[1:] {
+						if q != f.to {
+							net = append(net, flight{to: q, from: f.to, m: &hmsg{isAck: true, digest: d, ackSender: 0, round: 1}})
+						}
+					}
+				case len(f2) == 4 && f2[0] == "deliver" && f2[3] == "b":
+					for q, other := range handed {
+						if q != f.to && other != f2[1] {
+							found++
+							s.Violate("C02", fmt.Sprintf("honest parties %d and %d handed different payloads (%s vs %s) of sender 0 round 1 to their backends", q, f.to, other, f2[1]),
+								fmt.Sprintf("N=%d, corrupted sender 0, fifo=%v; operations in order (rbc <party> ...):\n%s", n, fifo, strings.Join(hist, "\n")))
+						}
+					}
+					handed[f.to] = f2[1]
+				}
+			}
+		}
+	}
+	s.Count("adversary-search-trials")
+	s.N += trials
+	s.Extra["adversary_search_trials"] = trials
 }
